@@ -35,8 +35,11 @@ impl Metadata {
     pub fn is_symlink(&self) -> (r: bool) ensures r == self.symlink() { unimplemented!() }
 }
 pub trait FdExt: AsFd {
+    /// utils/fd.rs FdExt::metadata (proved in U15): fstat of the descriptor itself
     #[verifier::external_body]
-    fn metadata(&self) -> (r: Result<Metadata, Error>) { unimplemented!() }
+    fn metadata(&self) -> (r: Result<Metadata, Error>)
+        ensures r matches Ok(m) ==> m.symlink() == is_symlink_object(self.fd_id())
+    { unimplemented!() }
 }
 impl<T: AsFd> FdExt for T {}
 //@item src/handle.rs :: struct Handle | sub.Handle
